@@ -71,7 +71,7 @@ func genRule(t *rapid.T, record bool) SrvRule {
 	case "cseq":
 		r.S = rapid.SampledFrom([]string{"missing", "wrong", "two", "dup", "0", "-1", "99999999999999999999", "abc", ""}).Draw(t, "cseq")
 	case "spam":
-		r.S = rapid.SampledFrom([]string{"OPTIONS", "OPTIONS", "frame"}).Draw(t, "spam")
+		r.S = rapid.SampledFrom([]string{"OPTIONS", "OPTIONS", "frame", "SET_PARAMETER", "ANNOUNCE"}).Draw(t, "spam")
 		r.N = rapid.SampledFrom([]int{100, 500, 2000, 10000}).Draw(t, "spam_gap_us")
 	case "chatter":
 		r.S = rapid.SampledFrom([]string{"stale", "options", "frame"}).Draw(t, "chatter")
